@@ -115,6 +115,8 @@ func checkC10(c *an.Ctx) {
 	stageLayering(c, "C10.1")
 	// the runner's variables come from the configuration + Args/ArgsList
 	baseVariables(c, r, "C10.1")
+	// $ARGS is the runner's env entry: nothing inherited may be layered over the runner's env
+	processEnvEntry(c, "C10.1")
 
 	configVariablesFlow(c, "C10.2")
 	dashHandling(c, "C10.3")
@@ -390,7 +392,7 @@ func configVariablesFlow(c *an.Ctx, rule string) {
 	}
 	// called for both global and project configuration, before Load returns
 	load := p.Func("internal/config", "Loader", "Load")
-	glob := p.Func("internal/config", "Loader", "LoadGlobalConfig")
+	glob, _ := globalLoader(p)
 	bfd := p.Func("internal/config", "", "buildFromDefinition")
 	// (decided on the Load trace: wherever the phases are called from)
 	if load != nil {
